@@ -258,6 +258,19 @@ class SymArray(_np.ndarray):
         key = _fix_key(key)
         _np.ndarray.__setitem__(_raw(self), key, _raw(val))
 
+    def view(self, *a, **kw):
+        dt = a[0] if a else kw.get("dtype")
+        try:
+            is_void = dt is not None and not isinstance(dt, type(_np.ndarray)) and _np.dtype(dt).kind == "V"
+        except TypeError:
+            is_void = False
+        if is_void and self.ndim == 2:
+            # the "view each row as one opaque item" idiom for unique rows: in real arithmetic two rows have the same
+            # bytes iff they are equal element-wise (signed zeros / NaN payloads are float artefacts, probed by the
+            # signed-zero replay twin)
+            return _np.ndarray.view(self, RowKeyArray)
+        return _np.ndarray.view(self, *a, **kw)
+
     def __bool__(self):
         if self.size != 1:
             raise ValueError("The truth value of an array with more than one element is ambiguous. Use a.any() or a.all()")
@@ -573,7 +586,21 @@ def _row_eq(r1, r2):
     return True
 
 
+class RowKeyArray(SymArray):
+    """rows of a 2-D symbolic array standing for opaque per-row items (see SymArray.view)"""
+
+    def ravel(self, *a, **kw):
+        return self
+
+    def reshape(self, *a, **kw):
+        return self
+
+
 def _unique(ar, return_index=False, return_inverse=False, return_counts=False, axis=None, **kw):
+    if isinstance(ar, RowKeyArray):
+        res = _unique(_np.ndarray.view(ar, SymArray), return_index=return_index, return_inverse=return_inverse,
+                      return_counts=return_counts, axis=0)
+        return res
     a = _np.asarray(_raw(ar))
     if return_inverse or return_counts:
         raise PathAbort("unique variant")
